@@ -155,6 +155,7 @@ func checkC06(c *Ctx) {
 	ruleFlipAfterDeadzone(c, dv, "R6.7")
 	ruleRescaleExact(c, dv, "R6.10")
 	ruleShiftOnlyUnsigned(c, dv, "R6.11")
+	c.importRules(checkC07, []string{"R7.9"}, "R6.15") // the rest value is transmitted for a resting axis also after CC learning: a swallowed position is not remembered as sent
 	c.importRules(checkC07, []string{"R7.1"}, "R6.9") // every position that passes the gates is transmitted: each controller path sends the active controller (no second, value-based suppression)
 	c.MinCount("R6.1", 2)
 	c.MinCount("R6.2", 2)
